@@ -36,7 +36,7 @@ func init() {
 		MinDistinct:     floor(15000, 200000),
 		RequiredCells: func(string) []string {
 			return []string{"purity/encrypted-meta/history", "purity/encrypted-meta/concurrent", "roundtrip/constructed", "roundtrip/dagcbor", "roundtrip/dagjson", "roundtrip/delegation", "roundtrip/invocation", "roundtrip/string", "roundtrip/bytes",
-				"tamper/bitflip-nonce", "tamper/bitflip-mac", "tamper/bitflip-body", "tamper/truncate", "wrong-key", "wrong-key/related", "plaintext-absent", "fresh-nonce", "entropy-fault", "never-encrypted", "badkey/derived-from-right-key", "badkey/nil", "badkey/size", "badkey/zero", "len=0", "len=1024"}
+				"tamper/bitflip-nonce", "tamper/bitflip-mac", "tamper/bitflip-body", "tamper/truncate", "wrong-key", "wrong-key/related", "plaintext-absent", "fresh-nonce", "fresh-nonce/option-reused", "entropy-fault", "never-encrypted", "badkey/derived-from-right-key", "badkey/nil", "badkey/size", "badkey/zero", "len=0", "len=1024"}
 		},
 	})
 }
@@ -277,6 +277,53 @@ func runC19(w *mon.W) {
 		}
 	}
 
+	// ---- one Option value applied to several tokens (a shared default-options slice): every
+	// token gets its own encryption of the value - the stored values and their nonces differ
+	for i := 0; i < w.Pick(6, 30); i++ {
+		key := gen.Bytes(r, 32)
+		plain := gen.Bytes(r, 1+r.IntN(64))
+		p := gen.Ed(i)
+		var stored [][]byte
+		if i%2 == 0 {
+			opt := delegation.WithEncryptedMetaBytes("secret", plain, key)
+			if i%4 == 0 {
+				opt = delegation.WithEncryptedMetaString("secret", string(plain), key)
+			}
+			for k := 0; k < 3; k++ {
+				d, err := delegation.Root(p.DID, gen.Ed(i+1).DID, cmd, policy.Policy{}, opt)
+				if err != nil {
+					break
+				}
+				if b, err := d.Meta().GetBytes("secret"); err == nil {
+					stored = append(stored, b)
+				}
+			}
+		} else {
+			opt := invocation.WithEncryptedMetaBytes("secret", plain, key)
+			if i%4 == 1 {
+				opt = invocation.WithEncryptedMetaString("secret", string(plain), key)
+			}
+			for k := 0; k < 3; k++ {
+				iv, err := invocation.New(p.DID, p.DID, cmd, nil, opt)
+				if err != nil {
+					break
+				}
+				if b, err := iv.Meta().GetBytes("secret"); err == nil {
+					stored = append(stored, b)
+				}
+			}
+		}
+		w.Eval(int64Len(stored))
+		w.Cover("fresh-nonce/option-reused")
+		for a := 0; a < len(stored); a++ {
+			for b := a + 1; b < len(stored); b++ {
+				if bytes.Equal(stored[a], stored[b]) || (len(stored[a]) >= 24 && len(stored[b]) >= 24 && bytes.Equal(stored[a][:24], stored[b][:24])) {
+					w.Violate("fresh/option-reused-same-ciphertext", "one encrypted-metadata Option applied to two tokens stores the same ciphertext / the same nonce in both", map[string]any{"stored_a": mon.Hex(capBytes(stored[a], 128)), "stored_b": mon.Hex(capBytes(stored[b], 128))})
+				}
+			}
+		}
+	}
+
 	// ---- wrong-size keys derived from the RIGHT key (every proper prefix, the key extended), with
 	// right keys that contain zero bytes at their ends: none may decrypt
 	for _, shape := range []string{"random", "trailing-zero", "two-trailing-zeros", "leading-zero", "mostly-zero"} {
@@ -498,3 +545,5 @@ func (f *failingReader) Read(p []byte) (int, error) {
 	}
 	return n, nil
 }
+
+func int64Len(x [][]byte) int { return len(x) }
